@@ -21,25 +21,28 @@ Definition hdrlen (c : Z) : option Z :=
 Definition padlen (c exp : Z) : Z :=
   if is_rfc c then (if exp mod 4 =? 0 then 0 else 4 - exp mod 4) else 0.
 
-(** second half of socket_recv_message: read the rest of the frame, deliver it when complete *)
+(** second half of socket_recv_message: read the rest of the frame, deliver it when complete.
+    [turn_payload_k s tot d]: what happens after the read obtained [d] *)
+Definition turn_payload_k (s : tst) (tot : Z) (d : list Z) : prog tst :=
+  match mwrite (t_buf s) (t_len s) d with
+  | None => PFault
+  | Some buf1 =>
+    let len1 := t_len s + lenZ d in
+    if len1 =? tot then
+      match mreadn buf1 0 len1 with
+      | None => PFault
+      | Some m =>
+          let m' := takeZ UPCAP m in
+          let idle := {| t_compat := t_compat s; t_buf := buf1; t_len := 0; t_exp := 0 |} in
+          if 0 <? lenZ m' then PUp m' (-1) (PDone idle 1) else PDone idle 0
+      end
+    else PDone {| t_compat := t_compat s; t_buf := buf1; t_len := len1; t_exp := t_exp s |} 0
+  end.
+Definition turn_tot (s : tst) : Z := w32 (t_exp s + padlen (t_compat s) (t_exp s)).
 Definition turn_payload (s : tst) : prog tst :=
-  let pad := padlen (t_compat s) (t_exp s) in
-  let tot := w32 (t_exp s + pad) in
-  PRead false (w64 (tot - t_len s)) (fun d =>
-    match mwrite (t_buf s) (t_len s) d with
-    | None => PFault
-    | Some buf1 =>
-      let len1 := t_len s + lenZ d in
-      if len1 =? tot then
-        match mreadn buf1 0 len1 with
-        | None => PFault
-        | Some m =>
-            let m' := takeZ UPCAP m in
-            let idle := {| t_compat := t_compat s; t_buf := buf1; t_len := 0; t_exp := 0 |} in
-            if 0 <? lenZ m' then PEv (Up m' (-1)) (PDone idle 1) else PDone idle 0
-        end
-      else PDone {| t_compat := t_compat s; t_buf := buf1; t_len := len1; t_exp := t_exp s |} 0
-    end).
+  PRead false (w64 (turn_tot s - t_len s)) (turn_payload_k s (turn_tot s)).
+(* entered right after a header was decoded: note how much buffer the frame needs *)
+Definition turn_frame_start (s : tst) : prog tst := PHdr (turn_tot s) (turn_payload s).
 
 (** header just completed: decide how long the frame is *)
 Definition turn_header (c : Z) (buf : list Z) (len : Z) : prog tst :=
@@ -48,32 +51,34 @@ Definition turn_header (c : Z) (buf : list Z) (len : Z) : prog tst :=
     if is_rfc c then
       let magic := be16 b0 b1 in
       let plen := be16 b2 b3 in
-      turn_payload {| t_compat := c; t_buf := buf; t_len := len; t_exp := (if magic <? 16384 then 20 else 4) + plen |}
+      turn_frame_start {| t_compat := c; t_buf := buf; t_len := len; t_exp := (if magic <? 16384 then 20 else 4) + plen |}
     else if c =? GOOGLE then
-      turn_payload {| t_compat := c; t_buf := buf; t_len := 0; t_exp := be16 b0 b1 |}
+      turn_frame_start {| t_compat := c; t_buf := buf; t_len := 0; t_exp := be16 b0 b1 |}
     else (* OC2007 *)
       if negb (b0 =? 2) && negb (b0 =? 3) then PDone {| t_compat := c; t_buf := buf; t_len := len; t_exp := 0 |} (-1)
       else
         match mwrite buf 0 [b2; b3] with
         | None => PFault
-        | Some buf' => turn_payload {| t_compat := c; t_buf := buf'; t_len := 2; t_exp := be16 b2 b3 + 2 |}
+        | Some buf' => turn_frame_start {| t_compat := c; t_buf := buf'; t_len := 2; t_exp := be16 b2 b3 + 2 |}
         end
   | _, _, _, _ => PFault
+  end.
+
+(** first half: what happens after the header read obtained [d] *)
+Definition turn_hdr_k (s : tst) (hl : Z) (d : list Z) : prog tst :=
+  match mwrite (t_buf s) (t_len s) d with
+  | None => PFault
+  | Some buf1 =>
+    let len1 := t_len s + lenZ d in
+    if len1 <? hl then PDone {| t_compat := t_compat s; t_buf := buf1; t_len := len1; t_exp := 0 |} 0
+    else turn_header (t_compat s) buf1 len1
   end.
 
 Definition turn_body (s : tst) : prog tst :=
   if t_exp s =? 0 then
     match hdrlen (t_compat s) with
     | None => PDone s (-1)
-    | Some hl =>
-      PRead false (w64 (hl - t_len s)) (fun d =>
-        match mwrite (t_buf s) (t_len s) d with
-        | None => PFault
-        | Some buf1 =>
-          let len1 := t_len s + lenZ d in
-          if len1 <? hl then PDone {| t_compat := t_compat s; t_buf := buf1; t_len := len1; t_exp := 0 |} 0
-          else turn_header (t_compat s) buf1 len1
-        end)
+    | Some hl => PRead false (w64 (hl - t_len s)) (turn_hdr_k s hl)
     end
   else turn_payload s.
 
@@ -89,9 +94,6 @@ Fixpoint oc_cookie (bufs : list (list Z)) (boff : Z) : list Z :=
         (if 4 + COOKIE_OFF - boff <? lenZ b then takeZ 4 (dropZ (COOKIE_OFF - boff) b) else [0; 0; 0; 0])
       else oc_cookie t (w16 (boff + lenZ b))
   end.
-
-Definition list_eqb (a b : list Z) : bool :=
-  (lenZ a =? lenZ b) && forallb (fun p => fst p =? snd p) (combine a b).
 
 Definition turn_frame (c : Z) (bufs : list (list Z)) : list Z :=
   let body := concat bufs in
